@@ -280,7 +280,15 @@ class MultiName(object):
                 allnames.extend(n.alt_names)
             else:
                 allnames.append(n)
-        self.alt_names = list(set(allnames))
+        # distinct alternatives in source order (undefined marker and
+        # runtime names first); never in an order that depends on object
+        # addresses or the hash seed
+        unique = []  # type: list[Name | UndefinedName]
+        for n in allnames:
+            if not any(n is u or (type(n) is UndefinedName and n == u) for u in unique):
+                unique.append(n)
+        unique.sort(key=lambda n: tuple(getattr(n, 'declared_at', None) or (0, 0)))
+        self.alt_names = unique
         self.name = self.alt_names[0].name
 
     def __repr__(self):  # type: () -> str
